@@ -570,6 +570,83 @@ fn dec_generic<B: Buffer>(ops: &[&str]) -> String {
     join_sp(evs)
 }
 
+/// `decf <i1,i2,…|-> <op>*`: `Decoder<Vec<u8>>` with an allocator that fails the first allocation call made
+/// while the bytes with the given (1-based) indices are pushed.  Returns the `dec` style events and the indices
+/// of the bytes during which the decoder called the allocator at all (candidates for further failures).
+pub fn decf_run(fails: &[usize], ops: &[&str]) -> (String, Vec<usize>) {
+    let mut d: Decoder<Vec<u8>> = Decoder::new();
+    let mut idx = 0usize;
+    let mut evs: Vec<String> = Vec::new();
+    let mut alloc_at: Vec<usize> = Vec::new();
+    for op in ops {
+        match *op {
+            "F" => match catch_unwind(AssertUnwindSafe(|| d.finalize())) {
+                Ok(None) => evs.push(format!("{}:F:-", idx)),
+                Ok(Some(e)) => evs.push(format!("{}:F:{}", idx, show_err(&e))),
+                Err(_) => {
+                    evs.push(format!("{}:panic", idx));
+                    return (join_sp(evs), alloc_at);
+                }
+            },
+            "R" => match catch_unwind(AssertUnwindSafe(|| d.reset())) {
+                Ok(n) => evs.push(format!("{}:R:{}", idx, n)),
+                Err(_) => {
+                    evs.push(format!("{}:panic", idx));
+                    return (join_sp(evs), alloc_at);
+                }
+            },
+            t => {
+                let bs = match untok(t) {
+                    Some(b) => b,
+                    None => return ("bad-request".to_string(), alloc_at),
+                };
+                for b in bs {
+                    idx += 1;
+                    let fail = fails.contains(&idx);
+                    // only the decoder's own call is watched: formatting the result allocates too
+                    let r = catch_unwind(AssertUnwindSafe(|| {
+                        crate::alloc_count::watch_start(fail);
+                        let r = d.push_byte(b);
+                        let (seen, delivered) = crate::alloc_count::watch_stop(fail);
+                        let s = match r {
+                            Ok(None) => None,
+                            Ok(Some(m)) => Some(format!("ok:{}", hex(m))),
+                            Err(e) => Some(show_err(&e)),
+                        };
+                        (s, seen, delivered)
+                    }));
+                    match r {
+                        Ok((s, seen, delivered)) => {
+                            if seen > 0 {
+                                alloc_at.push(idx);
+                            }
+                            if fail && !delivered {
+                                // the request asks for a failure where the decoder does not allocate
+                                return ("bad-request".to_string(), alloc_at);
+                            }
+                            if let Some(s) = s {
+                                evs.push(format!("{}:{}", idx, s));
+                            }
+                        }
+                        Err(_) => {
+                            let _ = crate::alloc_count::watch_stop(false);
+                            evs.push(format!("{}:panic", idx));
+                            return (join_sp(evs), alloc_at);
+                        }
+                    }
+                }
+            }
+        }
+    }
+    (join_sp(evs), alloc_at)
+}
+
+fn do_decf(args: &[&str]) -> Option<String> {
+    let f = args.first()?;
+    let fails: Vec<usize> = if *f == "-" { vec![] } else { f.split(',').map(|t| t.parse().ok()).collect::<Option<Vec<usize>>>()? };
+    Some(decf_run(&fails, &args[1..]).0)
+}
+
 fn do_dec(args: &[&str]) -> Option<String> {
     let cap = parse_cap(args.first()?)?;
     let ops = &args[1..];
@@ -1120,6 +1197,7 @@ pub fn run(line: &str) -> ImplOut {
         "enci" => do_enci(args),
         "encinf" => do_encinf(args),
         "dec" => do_dec(args),
+        "decf" => do_decf(args),
         "decode" => do_decode(args),
         "iter" => do_iter(args),
         "iterx" => do_iterx(args),
